@@ -54,7 +54,9 @@ def _ConvertFunctionType(ft: LinearIR.FunctionType) -> WebAssembly.FunctionType:
     for argType in ft.Arguments.values():
         argTypes.append(_ConvertType(argType))
 
-    resultTypes.append(_ConvertType(ft.ReturnType))
+    # A void function has no result
+    if not ft.ReturnType.IsVoid():
+        resultTypes.append(_ConvertType(ft.ReturnType))
 
     return WebAssembly.FunctionType(argTypes, resultTypes)
 
@@ -220,6 +222,10 @@ class GenerateWasmVisitor(Visitor.DefaultVisitor):
         functionType = _ConvertFunctionType(
             cast(LinearIR.FunctionType, function.Type)
         )
+
+        # Declare the function: its signature goes into the type section, and
+        # the function section maps the function to that signature
+        ctx.Module.AddFunction(ctx.Module.AddFunctionType(functionType))
 
         # Check if function is exported - for now assume yes
 
